@@ -86,11 +86,9 @@ func GetNumGPUFractionDevices(pod *v1.Pod) (int64, error) {
 
 func GetGpuGroups(pod *v1.Pod) []string {
 	var gpuGroups []string
-	gpuGroup, found := pod.Labels[constants.GPUGroup]
-	if !found {
-		return nil
+	if gpuGroup, found := pod.Labels[constants.GPUGroup]; found {
+		gpuGroups = append(gpuGroups, gpuGroup)
 	}
-	gpuGroups = append(gpuGroups, gpuGroup)
 	for labelKey, labelValue := range pod.Labels {
 		if strings.HasPrefix(labelKey, constants.MultiGpuGroupLabelPrefix) {
 			gpuGroups = append(gpuGroups, labelValue)
